@@ -116,6 +116,8 @@ pub enum Ev {
     Panic { message: String, location: String },
     /// probe `sink` starts subscription epoch `sub` (logged just before it subscribes)
     Attach { sink: u8, sub: u16 },
+    /// puppet instance (pup, inst) was created on behalf of subscription tag `owner`
+    Owner { pup: u8, inst: u16, owner: u8 },
 }
 
 #[derive(Clone, Debug, Default, Serialize, Deserialize)]
@@ -238,6 +240,7 @@ impl History {
                 Ev::Attach { sink, sub } => {
                     out.push_str(&format!("attach:s{sink}.{sub} "));
                 }
+                Ev::Owner { .. } => {}
             }
         }
         out.trim_end().to_string()
